@@ -11,7 +11,7 @@ namespace Sequence
 open Element
 
 /-- one step of the delay loop of the output path keeps the channel list -/
-theorem prepStep_keys (sr : Val) (M : Rat) (cs cs' : Dict Chan ChEntry) (x : Chan × Rat)
+theorem g4_prepStep_keys (sr : Val) (M : Rat) (cs cs' : Dict Chan ChEntry) (x : Chan × Rat)
     (h : prepStep sr M cs x = .ok cs') : Dict.keys cs' = Dict.keys cs := by
   unfold prepStep at h
   cases hg : Dict.get? cs x.1 with
@@ -33,7 +33,7 @@ theorem prepStep_keys (sr : Val) (M : Rat) (cs cs' : Dict Chan ChEntry) (x : Cha
       · cases h
     · cases h
 
-theorem foldlM_prepStep_keys (sr : Val) (M : Rat) (l : List (Chan × Rat)) (cs cs' : Dict Chan ChEntry)
+theorem g4_foldlM_prepStep_keys (sr : Val) (M : Rat) (l : List (Chan × Rat)) (cs cs' : Dict Chan ChEntry)
     (h : l.foldlM (prepStep sr M) cs = .ok cs') : Dict.keys cs' = Dict.keys cs := by
   induction l generalizing cs with
   | nil =>
@@ -45,7 +45,7 @@ theorem foldlM_prepStep_keys (sr : Val) (M : Rat) (l : List (Chan × Rat)) (cs c
     | error er => rw [hs] at h; cases h
     | ok cs1 =>
       rw [hs] at h
-      rw [ih cs1 h, prepStep_keys sr M cs cs1 x hs]
+      rw [ih cs1 h, g4_prepStep_keys sr M cs cs1 x hs]
 
 /-- the delay part of the output path keeps an element's channel list (ids and order) -/
 theorem prepDelayElement_channels (sr : Val) (e e'' : Element) (chans : List Chan) (delays : List Rat)
@@ -57,7 +57,7 @@ theorem prepDelayElement_channels (sr : Val) (e e'' : Element) (chans : List Cha
     rw [hf] at h
     simp only [Except.map, Except.ok.injEq] at h
     subst h
-    exact foldlM_prepStep_keys _ _ _ _ _ hf
+    exact g4_foldlM_prepStep_keys _ _ _ _ _ hf
 
 /-- the filter loop of the output path, channel by channel -/
 theorem prepFilters_mem (s : Sequence) (chans : List Chan) (d : Dict Chan ChOut) (r : Dict Chan ChOutF)
@@ -163,15 +163,48 @@ theorem prepare_filters (s : Sequence) (P : List (Dict Chan ChOutF)) (hP : s.pre
 
 /-! ### AWG settings keys -/
 
-theorem keyOf_ne_SR (ch : Chan) (what : String) : keyOf ch what ≠ "SR" := by
+theorem g4_keyOf_ne_SR (ch : Chan) (what : String) : keyOf ch what ≠ "SR" := by
   intro h
   have := congrArg String.toList h
   simp [keyOf] at this
 
-theorem keyOf_delay_ne_filter (ch ch' : Chan) : keyOf ch' "delay" ≠ keyOf ch "filtercompensation" := by
+theorem g4_keyOf_delay_ne_filter (ch ch' : Chan) : keyOf ch' "delay" ≠ keyOf ch "filtercompensation" := by
   intro h
   have := congrArg (fun s => s.toList.reverse.head?) h
   simp [keyOf] at this
+
+theorem g4_keyOf_amplitude_ne_filter (ch ch' : Chan) : keyOf ch' "amplitude" ≠ keyOf ch "filtercompensation" := by
+  intro h
+  have := congrArg (fun s => s.toList.reverse.head?) h
+  simp [keyOf] at this
+
+/-- **`_prepareForOutputting` depends on the sequence only through** its store, its sequencing
+    table, whether a sample rate and the channel amplitudes are set, and the declared delay and
+    filter of every channel -/
+theorem g4_prepare_congr (s s' : Sequence) (hd : s.data = s'.data) (hq : s.sequencing = s'.sequencing)
+    (hsr : Dict.has s.awgspecs "SR" = Dict.has s'.awgspecs "SR")
+    (hamp : ∀ ch, Dict.has s.awgspecs (keyOf ch "amplitude") = Dict.has s'.awgspecs (keyOf ch "amplitude"))
+    (hdel : ∀ ch, s.delayOf ch = s'.delayOf ch) (hfil : ∀ ch, s.filterOf ch = s'.filterOf ch) :
+    s.prepareForOutputting = s'.prepareForOutputting := by
+  have hcc : s.checkConsistency = s'.checkConsistency := by
+    unfold checkConsistency; rw [hsr, hd]
+  have hpe : s.prepElements = s'.prepElements := by
+    funext chans delays
+    unfold prepElements; rw [hd]
+  have hpf : s.prepFilters = s'.prepFilters := by
+    funext chans d
+    unfold prepFilters
+    have : s.filterOf = s'.filterOf := funext hfil
+    rw [this]
+  have hdo : s.delayOf = s'.delayOf := funext hdel
+  have hany : ∀ chans : List Chan, chans.any (fun ch => !(Dict.has s.awgspecs (keyOf ch "amplitude"))) =
+      chans.any (fun ch => !(Dict.has s'.awgspecs (keyOf ch "amplitude"))) := by
+    intro chans
+    congr 1
+    funext ch
+    rw [hamp]
+  unfold prepareForOutputting
+  simp only [hcc, hd, hq, hpe, hpf, hdo, hany]
 
 end Sequence
 end BB
